@@ -162,8 +162,8 @@ func zzSymFloatKJ(name string, P, j int) (f float64, k uint64, neg bool) {
 // takes the big.Rat route; real math/big is interpreted), and equal values have
 // equal hashes (Float.Hash -> finiteFloatToInt). Float regimes (zzChoice):
 //   - (+-)k*2^j with a fully symbolic 53-bit significand k and j from a list
-//     (quick: -1, 0, 11: half-integers below 2^53, the integers 2^52..2^53 and
-//     2^63..2^64; thorough: -2..1 and 10..12), which covers the 2^53 and 2^63/2^64
+//     (quick: 1 and 11: the even integers 2^53..2^54 and the multiples of 2^11 in
+//     2^63..2^64; thorough: -1, 0, 1, 11, 12), which covers the 2^53 and 2^63/2^64
 //     representation boundaries;
 //   - thorough only: short significands k < 2^smallk with j in -2..1 (symbolic
 //     small floats: every trailing zero of the significand costs solver queries);
@@ -188,10 +188,10 @@ func zzIntFloat(part int) {
 	x, xv := zzSymInt("x", B)
 	var f float64
 	var lt, eq bool // reference: x < f, x == f
-	bigJ := []int{-1, 0, 11}
+	bigJ := []int{1, 11}
 	smallP := 3
 	if zzParam("thorough_regimes", 0, 1) == 1 {
-		bigJ = []int{-2, -1, 0, 1, 10, 11, 12}
+		bigJ = []int{-1, 0, 1, 11, 12}
 	}
 	smallJ := []int{-2, -1, 0, 1}
 	type conc struct {
